@@ -276,6 +276,10 @@ func (h *H) triple(c *tcase, big bool) (outcome, bool) {
 			}
 		}
 	}
+	// a body built for known dimensions: not a byte more than the image it declares
+	if c.MaxOut > 0 && o.N > c.MaxOut {
+		h.fail("output-bound", fmt.Sprintf("%d bytes decoded, the declared image has %d", o.N, c.MaxOut), c, o)
+	}
 	// memory (measured); where the live heap is sampled, the cumulative TotalAlloc is not judged:
 	// a decoder that allocates and frees one bitmap per segment is within its budget
 	allow := allocAllowance(in, o.N, stageCount(c))
@@ -1408,6 +1412,10 @@ func main() {
 	// multi-scan formats: the pass counter against its model, thousands of tiny scans under the watchdog
 	h.progCases()
 	phase("progressive scan scripts")
+	// every frame kind x scan script; budget-charging filters behind compressing ones
+	h.frameCases()
+	h.behindCompression()
+	phase("frame kinds + budget identity")
 	// headers whose claimed geometry straddles the stream budget, for every component layout
 	h.headerSweep()
 	phase("header sweep")
